@@ -340,6 +340,7 @@ def rule_e(res: Results, idx: Index) -> None:
 
 def run(res: Results, idx: Index, tier: str) -> None:
     rule_f(res, idx)
+    rule_g(res, idx)
     res.rule("R-C03e", "slices and offset+index accesses into a node's result tuple / a body graph's interface list coincide with the sections the list was assembled from", floor=15)
     rule_e(res, idx)
     res.rule("R-C03a", "value names are fresh / existing / derived / interface; a literal name must be single-shot per scope", floor=1500)
@@ -532,3 +533,61 @@ def rule_f(res: Results, idx: Index) -> None:
                     else:
                         res.violation("R-C03f", site, key, f"`{src(st, 80)}` makes the nested context share the parent's `{t.attr}` table: every binding inside the body overwrites the enclosing scope's entries with body-local values, which outer nodes then reference", fi.qualname)
     res.analysed["scope_table_handovers"] = n
+
+
+# ---------------------------------------------------------------------------------------------- R-C03g (shared with C09 / C11)
+def inherited_settings(idx: Index):
+    """(site, key, status, detail, func, setting) for every `getattr(parent_ctx[.builder], "<attr>", default)` in the
+    scope constructors: the attribute must exist on IRContext / IRBuilder, otherwise the default is what every nested
+    scope gets (a Loop / If body lowered for another opset or precision than the model declares)."""
+    CTX, BLD = "jax2onnx/converter/ir_context.py", "jax2onnx/converter/ir_builder.py"
+
+    def attrs_of(rel: str, cname: str) -> Set[str]:
+        m = idx.module(rel)
+        c = m.classes.get(cname)
+        if c is None:
+            raise AnalysisError(f"{cname} not found in {rel}")
+        out: Set[str] = set()
+        for k in idx.class_mro(c):
+            for st in k.node.body:
+                if isinstance(st, (ast.Assign, ast.AnnAssign)):
+                    for t in (st.targets if isinstance(st, ast.Assign) else [st.target]):
+                        if isinstance(t, ast.Name):
+                            out.add(t.id)
+                if isinstance(st, (ast.FunctionDef, ast.AsyncFunctionDef)):
+                    out.add(st.name)
+            for f in k.methods.values():
+                for x in ast.walk(f.node):
+                    if isinstance(x, ast.Attribute) and isinstance(x.ctx, ast.Store) and isinstance(x.value, ast.Name) and x.value.id == "self":
+                        out.add(x.attr)
+        return out
+    ctx_attrs, bld_attrs = attrs_of(CTX, "IRContext"), attrs_of(BLD, "IRBuilder")
+    out = []
+    for rel, fn in (("jax2onnx/plugins/jax/lax/_control_flow_utils.py", "make_subgraph_context"), ("jax2onnx/converter/function_scope.py", "FunctionScope.__init__")):
+        f = idx.find_func(rel, fn)
+        if f is None:
+            continue
+        for c in walk_no_nested(f.node):
+            if not (isinstance(c, ast.Call) and (call_name(c) or "") == "getattr" and len(c.args) == 3 and isinstance(c.args[1], ast.Constant) and isinstance(c.args[1].value, str)):
+                continue
+            obj = dotted(c.args[0]) or ""
+            attr = c.args[1].value
+            if not obj.split(".")[0].startswith(("parent", "ctx", "outer")):
+                continue
+            on_builder = obj.endswith(".builder")
+            pool = bld_attrs if on_builder else ctx_attrs
+            key = f"{rel}::{fn}::inherits::{obj}.{attr}"
+            site = f"{rel}:{c.lineno}"
+            if attr in pool:
+                out.append((site, key, "OK", f"`{obj}.{attr}` exists on {'IRBuilder' if on_builder else 'IRContext'}", f.qualname, attr))
+            elif attr.startswith("_") and not on_builder:
+                out.append((site, key, "OK", f"optional private marker `{attr}` (set by plugins at run time)", f.qualname, attr))
+            else:
+                out.append((site, key, "VIOLATION", f"`{src(c, 70)}`: neither IRContext nor its bases define `{attr}`{' on the builder' if on_builder else ''}, so every nested scope silently gets the default {src(c.args[2], 20)} instead of the parent's setting", f.qualname, attr))
+    return out
+
+
+def rule_g(res: Results, idx: Index) -> None:
+    res.rule("R-C03g", "settings a nested scope inherits with getattr(parent, name, default) name attributes that exist", floor=4)
+    for site, key, status, detail, func, _ in inherited_settings(idx):
+        res.add("R-C03g", status, site, key, detail, func)
